@@ -163,10 +163,15 @@ class AddCyclicMemoryLayout(RewritePattern):
                 # increase current stride
                 current_stride = current_stride * layout_bound
 
-            # fill up empty strides
-            for stride in strides:
-                if not len(stride):
-                    stride.append(Stride(current_stride, 1))
+            # cover what the schedule does not access: a dimension that is not (entirely) walked
+            # by the schedule gets an outer stride for the remaining size
+            for dim, stride in enumerate(strides):
+                size = memref_type.get_shape()[dim]
+                covered = prod(s.bound for s in stride if s.bound)
+                remaining = size // covered if size > 0 else 1
+                if remaining > 1 or not len(stride):
+                    stride.insert(0, Stride(current_stride, remaining))
+                    current_stride = current_stride * remaining
 
             layout = TiledStridedLayout([TiledStride(s) for s in strides]).canonicalize()
             tsl = TiledStridedLayoutAttr(layout)
